@@ -251,8 +251,31 @@ def tag_class_pairs():
     ]
 
 
+def _nonlinear(e, _seen=None):
+    """Does the formula multiply or divide two non-constant arithmetic terms?"""
+    seen = set() if _seen is None else _seen
+    todo = [e]
+    while todo:
+        x = todo.pop()
+        if x.get_id() in seen or not z3.is_app(x):
+            continue
+        seen.add(x.get_id())
+        k = x.decl().kind()
+        ch = x.children()
+        if k == z3.Z3_OP_MUL and sum(1 for c in ch if not (z3.is_int_value(c) or z3.is_rational_value(c))) >= 2:
+            return True
+        if k in (z3.Z3_OP_DIV, z3.Z3_OP_IDIV, z3.Z3_OP_MOD, z3.Z3_OP_REM) and not (z3.is_int_value(ch[1]) or z3.is_rational_value(ch[1])):
+            return True
+        todo.extend(ch)
+    return False
+
+
 class Engine:
     def __init__(self, contracts=None):
+        # linear_pruning: path pruning and case enumeration ignore hypotheses with products / quotients of two symbolic
+        # numbers (the solver answers `unknown` on them within the pruning budget).  Sound: fewer hypotheses keep more
+        # paths alive; obligations always carry the full path condition.
+        self.linear_pruning = False
         self.obligations: list[Obligation] = []
         self.class_ids: dict = {}
         self.class_by_id: dict = {}
@@ -304,6 +327,8 @@ class Engine:
     def ground_pc(self, st: State):
         """Path condition without quantified facts.  Used only to *prune* paths / enumerate cases:
         dropping hypotheses can only keep more paths alive, never lose one."""
+        if self.linear_pruning:
+            return [p for p in st.pc if not _has_quant(p) and not _nonlinear(p)]
         return [p for p in st.pc if not _has_quant(p)]
 
     def check(self, st: State, extra=()):
@@ -713,6 +738,11 @@ class Engine:
             return gl[name]
         if hasattr(builtins, name):
             return getattr(builtins, name)
+        al = getattr(closure.src, "aliases", None)
+        if al and name in al:  # emitted Lisp code: an import alias of the generator that the live module lacks
+            import importlib
+
+            return importlib.import_module(al[name])
         raise Unsupported(f"name {name!r} not found in {mod}")
 
     def store_name(self, name, val, st: State, fr: int):
@@ -898,6 +928,13 @@ class Engine:
         if v.hint is not None:
             yield st, v.hint
             return
+        if z3.is_app(v.t) and v.t.num_args() == 1:
+            # the term is a constructor application of a scalar tag (int(..), frac(..), ...): its class is syntactic
+            tm = dict(tag_class_pairs())
+            dn = v.t.decl().name()
+            if dn in tm and dn != "ref":
+                yield st, tm[dn]
+                return
         # model enumeration over (tag, class id)
         sol = z3.Solver()
         sol.set("timeout", self.check_timeout_ms)
